@@ -41,7 +41,7 @@ class TemplateSolver:
                 p.part_reference()
                 p.part_slice()
                 p.part_format()
-                if p.value_ref and p.ccode[0]=='}':
+                if p.value_ref and p.ccode[:1]=='}':
                     nodes = self.env.request(p.value_ref, count=1)
                     if p.value_slice:
                         value = nodes[0].slice_value(p.value_slice)
